@@ -40,7 +40,7 @@ def run(pid, bdir, seed, plan):
     kills = []
     for meta_path in sorted(glob.glob(os.path.join(vx.VERIF, "seeded", "*", "meta.json"))):
         meta = json.load(open(meta_path))
-        if pid not in meta.get("detected_by", []) and meta.get("property") != pid:
+        if meta.get("property") != pid:
             continue
         sdir = os.path.dirname(meta_path)
         tmp = tempfile.mkdtemp(prefix="vx-seed-")
